@@ -138,7 +138,16 @@ class _P:
             self.i += 1
             while self.i < self.n and s[self.i].isdigit():
                 self.i += 1
-            return int(s[j : self.i])
+            lo = int(s[j : self.i])
+            if s.startswith("..", self.i):
+                self.i += 2
+                k = self.i
+                if self.i < self.n and s[self.i] == "-":
+                    self.i += 1
+                while self.i < self.n and s[self.i].isdigit():
+                    self.i += 1
+                return frozenset(range(lo, int(s[k : self.i]) + 1))
+            return lo
         if c.isalpha() or c == "_":
             j = self.i
             while self.i < self.n and (s[self.i].isalnum() or s[self.i] == "_"):
